@@ -383,6 +383,8 @@ func specEncLen(s structEncoder, n int) int {
 // calls go through this contract. Checked for every byte string: no index or slice expression of
 // ParseField leaves `bytes`, no offset computation wraps around.
 //@ func ParseField [C16]
+//@   reflect-validity
+//@   requires v.IsValid()
 //@   linear valArray, structParams
 //@   loop 0: invariant 0 <= i && len(structParams) == i
 //@   loop 1: invariant 1 <= i
@@ -408,6 +410,7 @@ func specHolds[T any](v reflect.Value) bool {
 // reflect is opaque (its own panics are not modelled); recursive calls go through this contract: a nil
 // error comes with a non-nil encoder.
 //@ func makeField [C04]
+//@   reflect-validity
 //@   ensures result1 == nil ==> result0 != nil
 //@   assume "berType.value = bitStringEncoder(": specHolds[BitString](v)
 //@   assume "berType.value = bytesEncoder(v.Interface().(OctetString))": specHolds[OctetString](v)
@@ -418,5 +421,8 @@ func specHolds[T any](v reflect.Value) bool {
 
 // UnmarshalWithParams / Unmarshal: the entry points hand the bytes to ParseField unchanged (C16).
 //@ func UnmarshalWithParams [C16]
+//@   reflect-validity
 //@ func Unmarshal [C16]
+//@   reflect-validity
 //@ func BerMarshal [C04]
+//@   reflect-validity
